@@ -165,6 +165,19 @@ func drain(q trie.Queuer[string]) string {
 	return plist(items)
 }
 
+// drainN reads at most n keys.
+func drainN(q trie.Queuer[string], n int) string {
+	var items []string
+	for len(items) < n && q.Size() > 0 {
+		k, err := q.Dequeue()
+		if err != nil {
+			break
+		}
+		items = append(items, hx(k))
+	}
+	return plist(items)
+}
+
 func (r *trieRunner) Do(op []string) string {
 	switch op[0] {
 	case "put":
@@ -183,6 +196,13 @@ func (r *trieRunner) Do(op []string) string {
 	case "startswith":
 		q, err := r.t.StartsWith(unhx(op[1]))
 		return drain(q) + " " + errs(err)
+	case "keyspart":
+		// the caller reads only the first k keys and leaves the rest in the result queue
+		q, err := r.t.Keys()
+		return drainN(q, atoi(op[1])) + " " + errs(err)
+	case "startswithpart":
+		q, err := r.t.StartsWith(unhx(op[2]))
+		return drainN(q, atoi(op[1])) + " " + errs(err)
 	case "longestprefix":
 		k, err := r.t.LongestPrefix(unhx(op[1]))
 		return hx(k) + " " + errs(err)
@@ -491,7 +511,7 @@ func genC09(g *Gen) {
 	for _, q := range queries {
 		qops = append(qops, "get "+hx(q), "contains "+hx(q), "startswith "+hx(q), "longestprefix "+hx(q))
 	}
-	qops = append(qops, "size", "keys")
+	qops = append(qops, "size", "keys", "keyspart 1", "keys", "startswithpart 1 "+hx("a"), "keys")
 	// all key sequences (with repetition, so re-puts and all insertion orders) up to setSize
 	seqsUpTo(keys, setSize, func(s []string) {
 		if !g.Mine() {
@@ -528,6 +548,8 @@ func genC09(g *Gen) {
 				"longestprefix "+hx(k+"zz"))
 		}
 		ops = append(ops, "keys", "startswith "+hx("ab"), "startswith "+hx("b"), "keys", "size")
+		// results read only in part, then queried again
+		ops = append(ops, "keyspart 1", "startswith "+hx("a"), "keyspart 2", "keys", "startswithpart 1 "+hx("a"), "startswith "+hx("b"), "keyspart 3", "startswithpart 2 "+hx("a"), "keys")
 		for i, k := range stored {
 			ops = append(ops, "put "+hx(k)+" "+itoa(500+i), "size", "get "+hx(k))
 		}
@@ -569,6 +591,9 @@ func genC09(g *Gen) {
 			if r.Intn(4) == 0 {
 				q := rk()
 				ops = append(ops, "get "+hx(q), "contains "+hx(q), "startswith "+hx(q), "longestprefix "+hx(q))
+			if j%3 == 0 {
+				ops = append(ops, "keyspart "+itoa(r.Intn(4)), "startswithpart "+itoa(r.Intn(3))+" "+hx(q), "keys")
+			}
 			}
 		}
 		ops = append(ops, "size", "keys")
